@@ -24,7 +24,7 @@ import (
 // front end of cmd/helios (buildHandler + createHTTPServer on a listener) with short
 // timeouts, and a raw TCP client that can itself misbehave.
 //
-//	ft new <strategy> <cb 0|1> <rl 0|1> <hc 0|1|2: none, passive+active, passive only> <plugins 0|1>
+//	ft new <strategy> <cb 0|1|2> <rl 0|1> <hc 0|1|2|3: none, passive+active, passive only, passive only with handler < backend_read> <plugins 0|1>
 //	ft wait <ms>
 //	ft req <fault>              one request; fault ∈ ok refuse hang reset short garbage s500 slow stall cau cad
 //	ft conc <n> <fault,fault,…> n concurrent requests, faults assigned round-robin
@@ -178,6 +178,8 @@ func (e *ftEnv) close() {
 	e.unlisten()
 }
 
+var ftCbDefaults bool
+
 func ftNew(strategy string, cb, rl bool, hc int, pl bool) string {
 	if ft != nil {
 		ft.close()
@@ -201,12 +203,21 @@ func ftNew(strategy string, cb, rl bool, hc int, pl bool) string {
 	cfg.Server.Timeouts = config.TimeoutConfig{Read: 2, Write: 2, Idle: 2, Handler: 2, Shutdown: 1, BackendDial: 1, BackendRead: 1, BackendIdle: 1}
 	if cb {
 		cfg.CircuitBreaker = config.CircuitBreakerConfig{Enabled: true, MaxRequests: 1, IntervalSeconds: 1, TimeoutSeconds: 1, FailureThreshold: 3, SuccessThreshold: 1}
+		if ftCbDefaults {
+			cfg.CircuitBreaker.MaxRequests, cfg.CircuitBreaker.SuccessThreshold = 0, 2
+		}
 	}
 	if rl {
 		cfg.RateLimit = config.RateLimitConfig{Enabled: true, MaxTokens: 200, RefillRate: 1}
 	}
 	if hc >= 1 {
 		cfg.HealthChecks.Passive = config.PassiveHealthCheckConfig{Enabled: true, UnhealthyThreshold: 3, UnhealthyTimeout: 1}
+	}
+	if hc == 3 {
+		// passive only, and the end-to-end handler timeout (1 s) fires before the backend read
+		// timeout (3 s): a silent backend is given up on by the handler deadline; ejection lasts 2 s
+		cfg.Server.Timeouts.Handler, cfg.Server.Timeouts.BackendRead = 1, 3
+		cfg.HealthChecks.Passive.UnhealthyTimeout = 2
 	}
 	if hc == 1 { // 2 = passive only: recovery must not depend on active probes
 		cfg.HealthChecks.Active = config.ActiveHealthCheckConfig{Enabled: true, Interval: 1, Timeout: 1, Path: "/health"}
@@ -268,7 +279,12 @@ func (e *ftEnv) exchange(fault string, limit time.Duration) (bool, string, int64
 		time.Sleep(30 * time.Millisecond)
 		return ended("client-aborted-upload")
 	}
-	_, _ = io.WriteString(c, "GET /x HTTP/1.1\r\nHost: verif.test\r\nConnection: close\r\nAccept-Encoding: identity\r\n\r\n")
+	if fault == "upg" {
+		// a clean request that offers a protocol upgrade (the backend answers a plain 200)
+		_, _ = io.WriteString(c, "GET /x HTTP/1.1\r\nHost: verif.test\r\nConnection: Upgrade\r\nUpgrade: h2c\r\nAccept-Encoding: identity\r\n\r\n")
+	} else {
+		_, _ = io.WriteString(c, "GET /x HTTP/1.1\r\nHost: verif.test\r\nConnection: close\r\nAccept-Encoding: identity\r\n\r\n")
+	}
 	br := bufio.NewReader(c)
 	resp, err := http.ReadResponse(br, nil)
 	for err == nil && resp.StatusCode >= 100 && resp.StatusCode < 200 && resp.StatusCode != 101 {
@@ -293,7 +309,8 @@ func ftOp(w []string) string {
 	switch {
 	case len(w) == 6 && w[0] == "new":
 		hc, _ := strconv.Atoi(w[4])
-		return ftNew(w[1], w[2] == "1", w[3] == "1", hc, w[5] == "1")
+		ftCbDefaults = w[2] == "2" // breaker on, with max_requests left at its default (0) and success_threshold 2
+		return ftNew(w[1], w[2] == "1" || w[2] == "2", w[3] == "1", hc, w[5] == "1")
 	case len(w) == 1 && w[0] == "close":
 		if ft != nil {
 			ft.close()
